@@ -66,7 +66,7 @@ func (k msgServer) MsgLiquidateVault(c context.Context, msg *types.MsgLiquidateV
 		totalDebt := vault.AmountOut.Add(vault.InterestAccumulated)
 		err1 := k.rewards.CalculateVaultInterest(ctx, vault.AppId, vault.ExtendedPairVaultID, vault.Id, totalDebt, vault.BlockHeight, vault.BlockTime.Unix())
 		if err1 != nil {
-			return nil, err
+			return nil, err1
 		}
 		vault, _ := k.vault.GetVault(ctx, vault.Id)
 		totalFees := vault.InterestAccumulated.Add(vault.ClosingFeeAccumulated)
